@@ -40,11 +40,11 @@ MUST_HIT = ["prefix:empty", "prefix:equal", "prefix:nested", "cc:16hl", "cc:16lh
             "resp:pos-mrp", "resp:neg-nrc", "gnr", "gnr:mrp", "msg:own-request", "msg:own-pos",
             "msg:own-neg", "msg:own-gnr", "msg:truncated", "msg:exhaustive", "msg:random",
             "attributed:request", "attributed:pos", "attributed:neg", "attributed:gnr",
-            "shared-must", "raise-ok", "via-request:ok", "groups:ok", "cc:midbyte", "attributed:midbyte"]
+            "shared-must", "raise-ok", "via-request:ok", "groups:ok", "cc:midbyte", "attributed:midbyte", "attributed:nrc0"]
 
 ALPHA = [0x10, 0x11, 0x22]
 POOL = [0x50, 0x51, 0x62, 0x7F, 0x10, 0x11, 0x22]
-NRCS = [0x11, 0x12, 0x22, 0x31]
+NRCS = [0x00, 0x11, 0x12, 0x22, 0x31]     # 0 is a legal (boundary) response code
 VAL8 = [0x10, 0x11, 0x22, 0x50, 0x51, 0x62, 0x7F, 0x00, 0x01, 0xFF, 0x12, 0x31]
 
 
@@ -568,15 +568,26 @@ def layer_classes(layer) -> set:
 
 
 def own_messages(layer, values):
-    """[(kind, service, obj, req, msg)] reference encodings of every request / response"""
+    """[(kind, service, obj, req, msg, values used)] reference encodings of every request / response;
+    a response with an NRC-CONST is encoded once per listed alternative, so that every alternative
+    (including 0) is the decisive byte of an own encoding"""
     out = []
     for s in layer["services"]:
-        req = D.encode(s["rq"], values[s["rq"]["name"]])
-        out.append(("request", s, s["rq"], req, req))
+        rv = values[s["rq"]["name"]]
+        req = D.encode(s["rq"], rv)
+        out.append(("request", s, s["rq"], req, req, rv))
         for kind, objs in (("pos", s["pos"]), ("neg", s["neg"]),
                            ("gnr", [g for g in layer["gnrs"] if D.gnr_applicable(g, s)])):
             for o in objs:
-                out.append((kind, s, o, req, D.encode(o, values[o["name"]], req)))
+                ov = values[o["name"]]
+                out.append((kind, s, o, req, D.encode(o, ov, req), ov))
+                nrc = next((p for p in o["params"] if p["k"] == "nrc"), None)
+                over = nrc and next((p for p in o["params"] if p["k"] == "val" and p["pos"] == nrc["pos"]), None)
+                if over:
+                    for code in nrc["vals"]:
+                        if code != ov[over["name"]]:
+                            ov2 = dict(ov, **{over["name"]: code})
+                            out.append((kind, s, o, req, D.encode(o, ov2, req), ov2))
     return out
 
 
@@ -621,16 +632,16 @@ def run_case(case, res: core.ShardResult | None, kf, stop_at_first=True, exhaust
     # --- messages ---------------------------------------------------------
     own = own_messages(layer, values)
     # self-check of the reference: what it encodes it classifies as exact for the owner
-    for kind, s, o, req, m in own:
+    for kind, s, o, req, m, ov in own:
         rp = None if kind == "request" else D.request_prefix(s)
         f = D.fit(o, m, rp)
-        if f.cls != D.MUST or any(f.values[k] != v for k, v in values[o["name"]].items()):
+        if f.cls != D.MUST or any(f.values[k] != v for k, v in ov.items()):
             raise RuntimeError(f"reference does not round-trip its own encoding: {o['name']} {m.hex()} {f}")
     msgs: dict = {}
     truncs = set()
-    for kind, s, o, req, m in own:
+    for kind, s, o, req, m, ov in own:
         msgs.setdefault(m, f"msg:own-{kind}")
-    for kind, s, o, req, m in own:
+    for kind, s, o, req, m, ov in own:
         if m:
             msgs.setdefault(m[:-1], "msg:truncated")
             truncs.add(m[:-1])
@@ -641,8 +652,11 @@ def run_case(case, res: core.ShardResult | None, kf, stop_at_first=True, exhaust
         msgs.setdefault(bytes(m), "msg:random")
 
     # own encodings whose constant run ends mid-byte and whose co-located VALUE bits are not 0
-    mid = {m for kind, s, o, req, m in own
-           if any(p["name"] == "cmid" for p in o["params"]) and values[o["name"]].get("vsub")}
+    mid = {m for kind, s, o, req, m, ov in own
+           if any(p["name"] == "cmid" for p in o["params"]) and ov.get("vsub")}
+    # own negative / global negative responses whose decisive NRC-CONST byte is 0
+    nrc0 = {m for kind, s, o, req, m, ov in own
+            if any(p["k"] == "nrc" and 0 in p["vals"] and m[p["pos"]] == 0 for p in o["params"])}
     first = True
     for m, mclass in msgs.items():
         fails, classes, matched = eval_decode(layer, dl, m)
@@ -651,6 +665,10 @@ def run_case(case, res: core.ShardResult | None, kf, stop_at_first=True, exhaust
             classes.add("msg:own-midbyte-nonzero")
             if any(c.startswith("attributed:") for c in classes):
                 classes.add("attributed:midbyte")
+        if m in nrc0:
+            classes.add("msg:own-nrc0")
+            if "attributed:neg" in classes or "attributed:gnr" in classes:
+                classes.add("attributed:nrc0")
         if first:
             classes |= lcl
             first = False
@@ -662,7 +680,7 @@ def run_case(case, res: core.ShardResult | None, kf, stop_at_first=True, exhaust
         if new_fails and stop_at_first:
             return new_fails
     # --- a response is found through the request that triggered it -------------
-    for kind, s, o, req, m in own:
+    for kind, s, o, req, m, ov in own:
         if kind == "request":
             continue
         fails, classes = eval_response(layer, dl, s, o, req, m)
